@@ -145,6 +145,50 @@ def run(chk, prog):
     if region_entry is None:
         return
 
+    # `let done = verdict || !self.can_continue(); if done { .. }`: the verdict's true edge only sets a merge boolean;
+    # the block is entered by the later test of that boolean
+    def _merge_form(entry):
+        blk = ci.blocks[entry]
+        asg = [s_ for s_ in blk['st'] if s_['k'] == 'assign' and 'p' not in s_['pl'] and s_['rv']['k'] == 'use'
+               and s_['rv']['op'].get('k') == 'const' and s_['rv']['op'].get('bool') is True
+               and ci.local_ty(s_['pl']['l']) == 'bool']
+        if len(asg) != 1 or not blk['term'] or blk['term']['k'] != 'goto':
+            return None
+        m = asg[0]['pl']['l']
+        from analysis.defuse import du as _du
+        for df in _du(ci).defs.get(m, []):
+            if df['kind'] == 'assign':
+                at = tr.prov(ci, df['rv']['op']) if df['rv']['k'] == 'use' else (
+                    tr.prov(ci, df['rv']['a']) if df['rv']['k'] == 'unop' else {'?'})
+            elif df['kind'] == 'call':
+                at = {'call:' + callee_short(df['term'])}
+            else:
+                at = {'?'}
+            if not all(a in ('const:true', 'const:false', 'call:Story::can_continue', 'arg:1') or a.startswith(('op:Not', 'via:'))
+                       for a in at):
+                return None
+        # the later test of m
+        for b2 in sorted(g.reachable([entry])):
+            t2 = ci.blocks[b2]['term']
+            if t2 and t2['k'] == 'switch' and t2['d'].get('k') in ('copy', 'move') and 'p' not in t2['d']['pl']:
+                src = t2['d']['pl']['l']
+                seen_, w_ = set(), [src]
+                while w_:
+                    y = w_.pop()
+                    if y in seen_:
+                        continue
+                    seen_.add(y)
+                    for df in _du(ci).defs.get(y, []):
+                        if df['kind'] == 'assign' and df['rv']['k'] == 'use' and df['rv']['op'].get('k') in ('copy', 'move'):
+                            w_.append(df['rv']['op']['pl']['l'])
+                if m in seen_ and g.dominates(b2, b2):
+                    tgt = [tb for v, tb in t2['ts'] if v != 0] or [t2['else']]
+                    return b2, tgt[0]
+        return None
+    mf = _merge_form(region_entry)
+    if mf is not None:
+        t1, region_entry = mf
+
     def skip_trivial(b):
         seen = set()
         while b not in seen:
